@@ -11,6 +11,7 @@ package vsched
 
 import (
 	"fmt"
+	"reflect"
 	"runtime/debug"
 	"sort"
 	"sync"
@@ -95,20 +96,22 @@ type thread struct {
 }
 
 type exec struct {
-	threads    []*thread
-	running    *thread
-	chooser    Chooser
-	preemptive bool
-	stepLimit  int64
-	points     int64
-	switches   int64
-	clock      int64
-	aborted    bool
-	res        Result
-	done       chan struct{}
-	wg         sync.WaitGroup
-	finished   bool
-	acc        map[accKey]*accState
+	threads     []*thread
+	running     *thread
+	chooser     Chooser
+	preemptive  bool
+	stepLimit   int64
+	points      int64
+	switches    int64
+	clock       int64
+	aborted     bool
+	res         Result
+	done        chan struct{}
+	wg          sync.WaitGroup
+	finished    bool
+	acc         map[accKey]*accState
+	pubMaps     map[uintptr]interface{}
+	mapReported bool
 }
 
 var cur *exec
@@ -585,6 +588,32 @@ func Access(obj interface{}, field string) {
 		if len(e.res.Notes) < 4 {
 			e.res.Notes = append(e.res.Notes, fmt.Sprintf("lock discipline: field %s of a version handle is accessed by threads %d and %d without a common lock (thread %d holds %d lock(s))", field, st.owner.id, t.id, t.id, len(t.held)))
 		}
+	}
+}
+
+// MapPublish records that the collections map m has been visible to readers
+// (T8): from now on it must never change.  The map is kept alive so that its
+// address cannot be reused within the execution.
+func MapPublish(m interface{}) {
+	e := cur
+	if e == nil || e.aborted {
+		return
+	}
+	if e.pubMaps == nil {
+		e.pubMaps = map[uintptr]interface{}{}
+	}
+	e.pubMaps[reflect.ValueOf(m).Pointer()] = m
+}
+
+// MapWrite is called before a store into or a delete from a collections map.
+func MapWrite(m interface{}, where string) {
+	e := cur
+	if e == nil || e.aborted || e.pubMaps == nil {
+		return
+	}
+	if _, ok := e.pubMaps[reflect.ValueOf(m).Pointer()]; ok && !e.mapReported {
+		e.mapReported = true
+		e.res.Notes = append(e.res.Notes, "copy-on-write discipline: a collections map that readers may hold is modified in place at "+where)
 	}
 }
 
